@@ -73,6 +73,10 @@ def apply_step(obj, st, via, alt=False):
         pw = obj.ctrlptsw
         pw[st["i"] - 1] = [float(x) for x in frv(st["pt"])]
         obj.ctrlptsw = pw
+    elif a == "edit_ctrlpts":
+        q = obj.ctrlpts
+        q[st["i"] - 1] = [float(x) for x in frv(st["pt"])]
+        obj.ctrlpts = q
     elif a == "fork":
         import copy
         other = copy.deepcopy(obj)
